@@ -234,3 +234,73 @@ func H_C08_options() {
 	verif.Assert(len(got) > 0 && verif.Eq(got[0], first), "first-inner-array")
 	verif.Reach("end")
 }
+
+// H_C08_mix_windows: the inner arrays are windows of one backing array
+// (overlapping, with spare capacity behind the first one), as a caller who
+// chunks a slice produces them: a mix=> query, then the nested query on the
+// same document - the second still sees every inner array as it was.
+func H_C08_mix_windows() {
+	shape := verif.Choose("shape", 3)
+	order := verif.Choose("order", 2)
+	rows := make([]any, 4)
+	vals := make([]float64, 4)
+	for i := range rows {
+		x := verif.F64("a")
+		verif.Assume(x == x)
+		vals[i] = x
+		rows[i] = Map{"a": x}
+	}
+	var n []any
+	var idx [][]int
+	switch shape {
+	case 0:
+		n, idx = []any{rows[0:2], rows[1:3]}, [][]int{{0, 1}, {1, 2}}
+	case 1:
+		n, idx = []any{rows[0:1], rows[2:4], rows[1:2]}, [][]int{{0}, {2, 3}, {1}}
+	case 2:
+		n, idx = []any{rows[0:0], rows[0:2], rows[3:4]}, [][]int{{}, {0, 1}, {3}}
+	}
+	doc := Map{"n": n}
+	c := verif.F64("c")
+	checkMix := func() {
+		got, ok := runQuery(doc, verif.SQL("SELECT a FROM `mix=>n` WHERE a > ?", c))
+		if !ok {
+			return
+		}
+		var want []any
+		for _, in := range idx {
+			for _, i := range in {
+				if vals[i] > c {
+					want = append(want, Map{"a": vals[i]})
+				}
+			}
+		}
+		verif.Assert(verif.Eq(got, want), "mix-is-concatenation-of-inner-results")
+	}
+	checkNested := func() {
+		got, ok := runQuery(doc, verif.SQL("SELECT a FROM n WHERE a > ?", c))
+		if !ok {
+			return
+		}
+		want := []any{}
+		for _, in := range idx {
+			part := []any{}
+			for _, i := range in {
+				if vals[i] > c {
+					part = append(part, Map{"a": vals[i]})
+				}
+			}
+			want = append(want, part)
+		}
+		verif.Assert(verif.Eq(got, want), "per-inner-array")
+	}
+	if order == 0 {
+		checkMix()
+		checkNested()
+	} else {
+		checkNested()
+		checkMix()
+	}
+	checkMix()
+	verif.Reach("end")
+}
